@@ -148,7 +148,22 @@ Definition ok_up_flag (K : fld) : Prop :=
 Definition ok_resize3 (K : fld) : Prop :=
   forall (s c : nat -> K) (d : nat -> nat -> K),
   interp_ok 3 gen_io_interp_resize3 (gen_io_s_resize3 (vtab 3 s) (vtab 3 c) (tab 3 3 d)) (gen_io_c_resize3 (vtab 3 s) (vtab 3 c) (tab 3 3 d)) (vtab 3 s) (vtab 3 c) (tab 3 3 d).
+Definition ok_roi2 (K : fld) : Prop :=
+  (forall v00 v01 v02 v03 v10 v11 v12 v13 v20 v21 v22 v23 : K, gen_io_data_roi2 [[v00; v01; v02; v03]; [v10; v11; v12; v13]; [v20; v21; v22; v23]] = to_nested2 (d_roi 2 0 [1; 0]%Z [2; 2]%Z (of_nested2 [[v00; v01; v02; v03]; [v10; v11; v12; v13]; [v20; v21; v22; v23]]))) /\
+  gen_io_n_roi2 (K:=K) = map of_Z gen_io_shape_roi2 /\
+  (forall (s c : nat -> K) (d : nat -> nat -> K),
+     src_ok 2 [of_Z 4; of_Z 3] gen_io_n_roi2 (gen_io_s_roi2 (vtab 2 s) (vtab 2 c) (tab 2 2 d)) (gen_io_c_roi2 (vtab 2 s) (vtab 2 c) (tab 2 2 d)) (vtab 2 s) (vtab 2 c) (tab 2 2 d) gen_io_src_roi2).
+Definition ok_roi2_pad (K : fld) : Prop :=
+  (forall v00 v01 v02 v03 v10 v11 v12 v13 v20 v21 v22 v23 : K, gen_io_data_roi2_pad [[v00; v01; v02; v03]; [v10; v11; v12; v13]; [v20; v21; v22; v23]] = to_nested2 (d_roi 2 (of_Q 5 2) [-1; 1]%Z [3; 2]%Z (of_nested2 [[v00; v01; v02; v03]; [v10; v11; v12; v13]; [v20; v21; v22; v23]]))) /\
+  gen_io_n_roi2_pad (K:=K) = map of_Z gen_io_shape_roi2_pad /\
+  (forall (s c : nat -> K) (d : nat -> nat -> K),
+     src_ok 2 [of_Z 4; of_Z 3] gen_io_n_roi2_pad (gen_io_s_roi2_pad (vtab 2 s) (vtab 2 c) (tab 2 2 d)) (gen_io_c_roi2_pad (vtab 2 s) (vtab 2 c) (tab 2 2 d)) (vtab 2 s) (vtab 2 c) (tab 2 2 d) gen_io_src_roi2_pad).
+(* conv with a 2-D kernel tensor: correlation with zero "same" padding, kernel in tensor order *)
+Definition ok_conv2 (K : fld) : Prop :=
+  forall v00 v01 v02 v03 v10 v11 v12 v13 v20 v21 v22 v23 k00 k01 k02 k10 k11 k12 k20 k21 k22 : K,
+  gen_io_data_conv2 [[v00; v01; v02; v03]; [v10; v11; v12; v13]; [v20; v21; v22; v23]] [[k00; k01; k02]; [k10; k11; k12]; [k20; k21; k22]] = to_nested2 (d_conv2 [[k00; k01; k02]; [k10; k11; k12]; [k20; k21; k22]] (of_nested2 [[v00; v01; v02; v03]; [v10; v11; v12; v13]; [v20; v21; v22; v23]])).
 Definition traced_index_ops_ok (K : fld) : Prop :=
+  ok_roi2 K /\ ok_roi2_pad K /\ ok_conv2 K /\
   ok_crop_num K /\
   ok_crop_margin K /\
   ok_crop_mixed K /\
